@@ -8,9 +8,10 @@ import (
 
 // verifyLemma proves a stand-alone lemma over spec functions.
 // Proof script lines (//@ proof ...):
-//   assert E              -- obligation, then assumed
-//   use L(args)           -- check L's requires at args (and decreases if L is this lemma), assume its ensures
-//   when C use L(args)    -- the same under condition C
+//
+//	assert E              -- obligation, then assumed
+//	use L(args)           -- check L's requires at args (and decreases if L is this lemma), assume its ensures
+//	when C use L(args)    -- the same under condition C
 func (e *Engine) verifyLemma(lm *Lemma) []*Oblig {
 	name := shortName(lm.Pkg) + ".lemma:" + lm.Name
 	fc := &FuncContract{Pkg: lm.Pkg, Name: "lemma:" + lm.Name, Safety: false, Extra: map[string][]string{}}
